@@ -443,6 +443,8 @@ impl<'a, Input: InputIndexer> MatchAttempter<'a, Input> {
         debug_assert!(self.states.is_empty(), "Should be no states");
         self.states.push(init_state.clone());
         while !self.states.is_empty() {
+            #[cfg(regress_verif)]
+            crate::verif::tick();
             let s = self.states.last_mut().unwrap();
             match try_match_state(self.re, &input, s, dir) {
                 StateMatch::Fail => {
